@@ -62,6 +62,13 @@ def check_sccs(ctx, rid, g, reach, crates, bindings):
         ent = TABLE.get(sig)
         if ent is None:
             why = auto_type_expression(ctx, comp)
+            if why is not None:
+                meas = auto_structural(ctx, comp)
+                if meas is not None:
+                    ctx.ok(rid, key, (ctx.P.body(comp[0]) or {}).get("sp", ""),
+                           "(s) auto-classified structural descent: every call into the cycle passes a strict projection of the caller's measure parameter (%s)"
+                           % ", ".join("%s:P%d" % (cshort(m), i) for m, i in sorted(meas.items())))
+                    continue
             if why is None:
                 ctx.ok(rid, key, (ctx.P.body(comp[0]) or {}).get("sp", ""),
                        "(e) auto-classified type-expression recursion: every call into the cycle passes a type-parameter / element / tuple / compact / bit child id")
@@ -108,6 +115,50 @@ def auto_type_expression(ctx, comp):
                 return "%s recurses on `%s`" % (cshort(m), t[:80])
             strict += 1
     return None if strict else "no descending call"
+
+
+def auto_structural(ctx, comp):
+    """a measure-parameter assignment under which every call into the SCC passes a strict projection of the caller's
+    measure parameter (field / payload / element / predecessor), or None"""
+    import itertools
+    fns = {}
+    for m in comp:
+        fn = ctx.P.body(m)
+        if fn is None or "body" not in fn:
+            return None
+        fns[m] = fn
+    ranges = [range(len(fns[m].get("inputs", []))) for m in comp]
+    total = 1
+    for r in ranges:
+        total *= max(1, len(r))
+    if total > 256 or any(len(r) == 0 for r in ranges):
+        return None
+    norms = {m: Norm(fns[m]) for m in comp}
+    calls = {m: _calls_into(ctx, fns[m], comp) for m in comp}
+    if not any(calls.values()):
+        return None
+    for combo in itertools.product(*ranges):
+        meas = dict(zip(comp, combo))
+        ok = True
+        for m in comp:
+            for n, cal in calls[m]:
+                target = [x for x in comp if k10._same_fn(cal, x)]
+                if len(target) != 1:
+                    ok = False
+                    break
+                args = ([n["recv"]] + n["args"]) if n["k"] == "MethodCall" else n["args"]
+                if meas[target[0]] >= len(args):
+                    ok = False
+                    break
+                d = descent_depth(norms[m], norms[m].term(args[meas[target[0]]]), meas[m])
+                if d is None or d < 1:
+                    ok = False
+                    break
+            if not ok:
+                break
+        if ok:
+            return meas
+    return None
 
 
 def _calls_into(ctx, fn, comp):
@@ -239,7 +290,7 @@ def guarded(ctx, rid, key, comp, spec):
         t = show(N.term(fn["body"]), 10 ** 5)
         i_id = q.param_index(fn, lambda t: t == "u32")
         i_set = q.param_index(fn, lambda t: "HashSet<u32" in t)
-        ok = t.startswith("early{HashSet::contains(P%d,P%d)=>return '()'}{HashSet::insert(P%d,P%d);" % (i_set, i_id, i_set, i_id))
+        ok = t.startswith("early{Not(HashSet::insert(P%d,P%d))=>return '()'}" % (i_set, i_id))
         # every recursive call passes the same set
         for n, cal in _calls_into(ctx, fn, comp):
             if show(N.term(n["args"][i_set])) != "P%d" % i_set:
